@@ -145,4 +145,9 @@ def genRev : List OpDesc → Stream
 /-- issue order of a cascade given from first to last operator -/
 def cascadeOrder (ops : List OpDesc) : Stream := genRev ops.reverse
 
+/-- Producer frontier when a consumer stripe that requires IFM rows up to `b` is issued: the generator
+    pulls producer stripes of `p` rows (the last one clipped to the tensor height `H`) until
+    `ifm_present.end ≥ b`, i.e. up to the first stripe boundary at or after `b`. -/
+def frontier (p H b : Int) : Int := min (((b + p - 1) / p) * p) H
+
 end VelaVerif.Cascade
